@@ -6,7 +6,7 @@
    ours to prove and is compared on the real code (L2). *)
 From Coq Require Import ZArith List Bool Arith Permutation Reals.
 From OV.model Require Import M_C14_Dof M_C02_Assembly M_C02_Energy M_C02_MultiBlock.
-From OV.proofs Require Import L_C14 L_C02 L_C02_refs L_C02_hess L_C02_mb.
+From OV.proofs Require Import L_C14 L_C02 L_C02_refs L_C02_hess L_C02_mb L_C02_batch.
 From OV.gen Require Import Refs_Mechanics.
 Import ListNotations.
 
@@ -219,8 +219,49 @@ Theorem C02_refs_resolve_decided : if refs_all_ok then refs_resolve else refs_br
 Proof. exact refs_decided. Qed.
 Theorem C02_refs_resolve_refuted_when_flagged : refs_all_ok = false -> ~ refs_resolve.
 Proof. exact refs_resolve_refuted_when_flag_false. Qed.
-Example C02_refs_nonvacuous : 20 <= length attr_refs /\ 2 <= length hook_arities.
+Example C02_refs_nonvacuous : 20 <= length attr_refs /\ 1 <= length hook_arities.
 Proof. exact refs_nonvacuous. Qed.
+(* (round 4: the non-vacuity bound on nested hooks is 1, not 2: a factory that delegates to
+   define_pressure_projection_gradient_tranformation, as create_dynamics_functions does, has no nested hook of its own; the calls
+   of hook variables are now covered by call_arities below.) *)
+
+(* round 4 -- the kinematic options through EVERY factory (tables regenerated from the AST on every run, decided by computation):
+   every top-level function of Mechanics.py with a parameter pressureProjectionDegree (the single-block, multi-block and dynamics
+   factories and the helper) tests it only as `is None` / `is not None` (so degree 0 is not mistaken for "no projection"), never
+   rebinds it, and reaches volume_average_J_gradient_transformation directly or by passing the parameter unchanged to a function
+   that does; every function with a parameter mode2D compares it with both "plane strain" and "axisymmetric" or delegates to one
+   that does; every call of a top-level function of the module and of an element-gradient hook variable passes a number of
+   arguments the callee accepts.  The conditional forms hold for any tree.
+   NOT PROVED: that the factories then compute the SAME projected gradient (semantics of the nested closures): compared on the real
+   code by the cross-factory stream (single-block vs multi-block vs dynamics factory on the same mesh, degrees None / 0 / 1, order 2). *)
+Theorem C02_option_sites_resolve : sites_resolve.
+Proof. exact sites_resolve_now. Qed.
+Theorem C02_option_sites_decided : if sites_all_ok then sites_resolve else sites_broken.
+Proof. exact sites_decided. Qed.
+Theorem C02_option_sites_refuted_when_flagged : sites_all_ok = false -> ~ sites_resolve.
+Proof. exact sites_resolve_refuted_when_flag_false. Qed.
+Theorem C02_factories_pass_every_degree :
+  forall f ln nt nn rb re di, In (f, ln, nt, nn, rb, re, di) pp_sites -> nt = nn /\ rb = 0 /\ re = true.
+Proof. exact factories_pass_every_degree. Qed.
+Example C02_option_sites_nonvacuous :
+  3 <= length (filter is_factory pp_sites) /\ 3 <= length (filter is_mode_factory mode_sites) /\ 20 <= length call_arities.
+Proof. exact sites_nonvacuous. Qed.
+
+(* round 4 -- element batching: evaluating the element-Hessian kernel a batch of element ids at a time (gather, map, concatenate,
+   truncate to the element count) gives exactly the single-block element Hessians whenever the batches, read in order, list the
+   elements 0..n-1 followed only by padding -- for any batch sizes and any padding ids.  This is what the large-mesh stream's
+   reference (chunks of 128, last chunk padded with the last id) relies on, and the specification a batched element map must meet;
+   windows shifted back to fit (dynamic_slice) violate the hypothesis and the conclusion (batched_clamped_refuted in L_C02_batch.v).
+   NOT PROVED / not modelled: jax.vmap / lax.map themselves; /repo has no batching today (plain vmap over all elements). *)
+Theorem C02_batched_hessians :
+  forall (E M H : Type) (edef : E) (hk : M -> E -> H) (m : M) (elems : list E) (batches : list (list nat)) (pad : list nat),
+  concat batches = seq 0 (length elems) ++ pad ->
+  batched_map edef (hk m) elems batches = sb_hessians hk elems m.
+Proof. exact (@batched_hessians_correct). Qed.
+Example C02_batched_nonvacuous :
+  concat [[0; 1]; [2; 2]] = seq 0 (length [10; 20; 30]) ++ [2]
+  /\ batched_map 0 (fun e => 2 * e) [10; 20; 30] [[0; 1]; [2; 2]] = [20; 40; 60].
+Proof. exact batched_nonvacuous. Qed.
 
 Example C02_nonvacuous :
   Forall (el_in_range ex_isBc 2) ex_conns /\ blocks_symmetric 2 ex_conns ex_Ks
@@ -237,6 +278,7 @@ Print Assumptions C02_assembly_is_PtKP.
 Print Assumptions C02_blocks_partition.
 Print Assumptions C02_integrate_over_block_gather.
 Print Assumptions C02_refs_resolve.
+Print Assumptions C02_option_sites_resolve.
 Print Assumptions C02_hessian_chain.
 Print Assumptions C02_hessian_quadratic.
 Print Assumptions C02_multiblock_same_material.
